@@ -417,7 +417,15 @@ class FIXNewOrderSingle:
             self.leaves_qty = 0
 
         if new_status is not None:
-            self.status = new_status
+            self.status = FOrdStatus(new_status)
+            if self.orig_clord_id is not None and self.status not in (
+                FOrdStatus.PENDING_CANCEL,
+                FOrdStatus.PENDING_REPLACE,
+            ):
+                # The rejected request is dead: the order stays live under its previous
+                #   ClOrdID and can be canceled / replaced again
+                self.clord_id = self.orig_clord_id
+                self.orig_clord_id = None
             return True
         else:
             return False
